@@ -84,6 +84,7 @@ class _Gen:
         self.snake_by_dir = {d: set() for d in DIRS}
         self.decl_order = []   # (name, kind, dir)
         self.excluded = {}     # feature -> count of candidates dropped
+        self.size = SIZES["quick"]
 
     def drop(self, feature):
         self.excluded[feature] = self.excluded.get(feature, 0) + 1
@@ -245,9 +246,9 @@ class _Gen:
                 return
             last = idx == n - 1
             kinds = [("field", 12), ("array", 5), ("lenmember", 4), ("hfield", 2)]
-            if ctx["switchable"] and ctx["depth"] < 3:
+            if ctx["switchable"] and ctx["depth"] < self.size["max_depth"]:
                 kinds.append(("switch", 6))
-            if ctx["depth"] < 3:
+            if ctx["depth"] < self.size["max_depth"]:
                 kinds.append(("chunked", 5 if not ctx["lex"] else 1))
             if ctx["lex"]:
                 kinds.append(("break", 5))
@@ -523,7 +524,7 @@ class _Gen:
                     c["body"] = []
                 else:
                     c["body"], sub = self.gen_body(ctx["dir"], lex=ctx["lex"], reached_optional=popt,
-                                                   depth=ctx["depth"] + 1, max_n=4, is_case=True)
+                                                   depth=ctx["depth"] + 1, max_n=self.size["case_n"], is_case=True)
                     c["_opt"] = sub["opt"]
                     c["_dummy"] = sub["dummy"]
             cm = self.comment()
@@ -546,6 +547,20 @@ class _Gen:
 
 def _has_dummy(body):
     return any(i["tag"] == "dummy" for i in spec.Analysis.flatten(body))
+
+
+# generated sizes per tier ("many small cases beat few large ones": the thorough tier mixes both)
+SIZES = {
+    "quick": {"max_decls": 9, "max_packets": 3, "max_depth": 3, "body_n": 6, "case_n": 4},
+    "big": {"max_decls": 13, "max_packets": 4, "max_depth": 4, "body_n": 8, "case_n": 5},
+}
+_TIER = ["quick"]
+
+
+def set_tier(tier):
+    """Called by the checks at the start of a task; the thorough tier draws half of its trees
+    from the larger size profile."""
+    _TIER[0] = "thorough" if tier == "thorough" else "quick"
 
 
 def canonicalise(lst, tail_ok=True):
@@ -572,12 +587,18 @@ def canonicalise(lst, tail_ok=True):
 
 
 @st.composite
-def trees(draw, features=None, min_decls=2, max_decls=9, max_packets=3, canonical=False):
+def trees(draw, features=None, min_decls=2, max_decls=None, max_packets=None, canonical=False):
     f = dict(DEFAULT_FEATURES)
     if features:
         f.update(features)
     g = _Gen(draw, f)
     g.canonical = canonical
+    size = SIZES["big"] if (_TIER[0] == "thorough" and draw(st.booleans())) else SIZES["quick"]
+    g.size = size
+    if max_decls is None:
+        max_decls = size["max_decls"]
+    if max_packets is None:
+        max_packets = size["max_packets"]
     # mandatory enums
     fam = g.gen_enum("net", name="PacketFamily", nmin=1, nmax=4)
     act = g.gen_enum("net", name="PacketAction", nmin=1, nmax=4)
@@ -676,7 +697,7 @@ _Gen.gen_simple_body = _gen_simple_body
 def _gen_struct_body(self, dir_):
     if self.draw(st.integers(0, 99)) < 22:
         return self.gen_simple_body(dir_)
-    body, ctx = self.gen_body(dir_, lex=False, reached_optional=False, depth=0, max_n=6)
+    body, ctx = self.gen_body(dir_, lex=False, reached_optional=False, depth=0, max_n=self.size["body_n"])
     if getattr(self, "canonical", False):
         canonicalise(body, True)
     return body, ctx
